@@ -24,8 +24,9 @@ def execute(cases, timeout=180, python=None):
         for c, r in zip(inproc, runlib.run_inproc_many(jobs, python=python)):
             out[c['id']] = r
     if cli:
+        # cli_kw: e.g. a relative --path and the directory to start in
         jobs = [(c['world'], abstract.concrete_args(c['o']),
-                 {'timeout': timeout}) for c in cli]
+                 dict({'timeout': timeout}, **c.get('cli_kw', {}))) for c in cli]
         for c, r in zip(cli, runlib.run_cli_many(jobs)):
             out[c['id']] = r
     return out
